@@ -391,3 +391,207 @@ Qed.
 
 Lemma rect_level_uniform n v k : rectangular n v -> k < n -> level_uniform (elements_at_depth k v).
 Proof. intros R Hk. eexists. apply (rect_levels k n v R Hk). Qed.
+
+(* ================================================================== any number of fields *)
+
+Definition op_of (f : field) : operand := (ndim_shape (fst f), Node (snd f)).
+Definition field_ok (f : field) : Prop := 1 <= ndim_shape (fst f).
+
+Lemma field_get_all f : field_ok f -> map (get_elem (fst f) (snd f)) (field_ind f) = map Some (op_elements (op_of f)).
+Proof. intros H. exact (get_all (fst f) (snd f) H). Qed.
+
+Lemma flat_map_flat_map {A B C} (f : A -> list B) (g : B -> list C) l :
+  flat_map g (flat_map f l) = flat_map (fun x => flat_map g (f x)) l.
+Proof. induction l as [|x l IH]; [reflexivity|]. cbn [flat_map]. now rewrite flat_map_app, IH. Qed.
+
+Lemma map_flat_map {A B C} (f : A -> list B) (h : B -> C) l :
+  map h (flat_map f l) = flat_map (fun x => map h (f x)) l.
+Proof. induction l as [|x l IH]; [reflexivity|]. cbn [flat_map]. now rewrite map_app, IH. Qed.
+
+Lemma flat_map_map {A B C} (g : A -> B) (f : B -> list C) l :
+  flat_map f (map g l) = flat_map (fun x => f (g x)) l.
+Proof. induction l as [|x l IH]; [reflexivity|]. cbn [map flat_map]. now rewrite IH. Qed.
+
+(* ---- outer: the left fold of itertools.product enumerates the lexicographic product *)
+Lemma fold_outer (Rs : list (list nat)) : forall acc,
+  fold_left step_outer Rs acc = flat_map (fun t => map (app t) (prod_n Rs)) acc.
+Proof.
+  induction Rs as [|R Rs IH]; intros acc.
+  - cbn [fold_left prod_n map]. induction acc as [|t acc IHa]; [reflexivity|].
+    cbn [flat_map]. rewrite app_nil_r. cbn. now rewrite <- IHa.
+  - cbn [fold_left]. rewrite IH. unfold step_outer. rewrite flat_map_flat_map.
+    apply flat_map_ext. intros t. cbn [prod_n].
+    rewrite flat_map_map, map_flat_map. apply flat_map_ext. intros j.
+    rewrite map_map. apply map_ext. intros r. now rewrite <- app_assoc.
+Qed.
+
+Lemma outer_ind_prod R0 Rs :
+  fold_left step_outer Rs (map (fun i => [i]) R0) = prod_n (R0 :: Rs).
+Proof. rewrite fold_outer, flat_map_map. reflexivity. Qed.
+
+Lemma get_tuple_cons f fs i t :
+  get_tuple (f :: fs) (i :: t) =
+  match get_elem (fst f) (snd f) i with
+  | Some a => option_map (cons a) (get_tuple fs t)
+  | None => None
+  end.
+Proof. cbn [get_tuple]. destruct (get_elem (fst f) (snd f) i), (get_tuple fs t); reflexivity. Qed.
+
+Lemma get_tuple_prod fs :
+  Forall field_ok fs ->
+  map (get_tuple fs) (prod_n (map field_ind fs)) = map Some (prod_n (map (fun f => op_elements (op_of f)) fs)).
+Proof.
+  induction 1 as [|f fs Hf _ IH]; [reflexivity|].
+  cbn [map prod_n]. pose proof (field_get_all f Hf) as HX.
+  set (P := prod_n (map field_ind fs)) in *.
+  set (Q := prod_n (map (fun f => op_elements (op_of f)) fs)) in *.
+  revert HX. generalize (op_elements (op_of f)) as X. generalize (field_ind f) as R.
+  induction R as [|i R IHR]; intros [|a X] HX; try discriminate; [reflexivity|].
+  cbn in HX. inversion HX as [[Hi Hr]]. cbn [flat_map]. rewrite !map_app, (IHR X Hr). f_equal.
+  transitivity (map (option_map (cons a)) (map (get_tuple fs) P)).
+  - rewrite !map_map. apply map_ext. intros t. now rewrite get_tuple_cons, Hi.
+  - rewrite IH, !map_map. reflexivity.
+Qed.
+
+Lemma splitN_outer f0 fs :
+  Forall field_ok (f0 :: fs) ->
+  outer_n_ok (map op_of (f0 :: fs)) (splitN Outer f0 fs).
+Proof.
+  intros H. unfold outer_n_ok, splitN, nary_ind.
+  rewrite outer_ind_prod.
+  change (field_ind f0 :: map field_ind fs) with (map field_ind (f0 :: fs)).
+  rewrite (get_tuple_prod (f0 :: fs) H), sequence_map_Some, map_map. reflexivity.
+Qed.
+
+(* ---- inner: the left fold of zip pairs position by position *)
+Lemma zip3 (acc : list (list nat)) : forall (R : list nat) (Z : list (list nat)),
+  map (fun p => fst p ++ snd p) (combine (map (fun p => fst p ++ [snd p]) (combine acc R)) Z) =
+  map (fun p => fst p ++ snd p) (combine acc (map (fun p => fst p :: snd p) (combine R Z))).
+Proof.
+  induction acc as [|t acc IH]; intros [|j R] [|z Z]; try reflexivity.
+  cbn [combine map fst snd]. rewrite IH, <- app_assoc. reflexivity.
+Qed.
+
+Lemma combine_map_r {A B C} (f : B -> C) (a : list A) : forall b,
+  combine a (map f b) = map (fun p => (fst p, f (snd p))) (combine a b).
+Proof. induction a as [|x a IH]; intros [|y b]; try reflexivity. cbn. now rewrite IH. Qed.
+
+Lemma combine_map_l {A B C} (f : A -> C) (a : list A) : forall (b : list B),
+  combine (map f a) b = map (fun p => (f (fst p), snd p)) (combine a b).
+Proof. induction a as [|x a IH]; intros [|y b]; try reflexivity. cbn. now rewrite IH. Qed.
+
+Lemma fold_inner (Rs : list (list nat)) : forall acc,
+  Rs <> [] ->
+  fold_left step_inner Rs acc = map (fun p => fst p ++ snd p) (combine acc (zip_n Rs)).
+Proof.
+  induction Rs as [|R Rs IH]; intros acc HN; [congruence|].
+  destruct Rs as [|R' Rs].
+  - cbn [fold_left zip_n]. unfold step_inner. rewrite combine_map_r, map_map. reflexivity.
+  - change (fold_left step_inner (R :: R' :: Rs) acc)
+      with (fold_left step_inner (R' :: Rs) (step_inner acc R)).
+    rewrite IH by discriminate.
+    unfold step_inner. rewrite zip3. reflexivity.
+Qed.
+
+Lemma inner_ind_zip R0 Rs :
+  fold_left step_inner Rs (map (fun i => [i]) R0) = zip_n (R0 :: Rs).
+Proof.
+  destruct Rs as [|R Rs]; [reflexivity|].
+  rewrite fold_inner by discriminate. rewrite combine_map_l, map_map. reflexivity.
+Qed.
+
+Lemma get_tuple_zip fs :
+  Forall field_ok fs ->
+  map (get_tuple fs) (zip_n (map field_ind fs)) = map Some (zip_n (map (fun f => op_elements (op_of f)) fs)).
+Proof.
+  induction 1 as [|f fs Hf Hfs IH]; [reflexivity|].
+  pose proof (field_get_all f Hf) as HX.
+  destruct fs as [|f' fs].
+  - cbn [map zip_n]. rewrite !map_map.
+    transitivity (map (option_map (fun a => [a])) (map (get_elem (fst f) (snd f)) (field_ind f))).
+    + rewrite map_map. apply map_ext. intros i. cbn [get_tuple].
+      destruct (get_elem (fst f) (snd f) i); reflexivity.
+    + rewrite HX, map_map. reflexivity.
+  - set (fs' := f' :: fs) in *.
+    assert (E1 : zip_n (map field_ind (f :: fs')) =
+                 map (fun p => fst p :: snd p) (combine (field_ind f) (zip_n (map field_ind fs')))) by reflexivity.
+    assert (E2 : zip_n (map (fun f => op_elements (op_of f)) (f :: fs')) =
+                 map (fun p => fst p :: snd p)
+                     (combine (op_elements (op_of f)) (zip_n (map (fun f => op_elements (op_of f)) fs')))) by reflexivity.
+    rewrite E1, E2. clear E1 E2. clearbody fs'.
+    set (P := zip_n (map field_ind fs')) in *.
+    set (Q := zip_n (map (fun f => op_elements (op_of f)) fs')) in *.
+    revert HX IH. generalize (op_elements (op_of f)) as X. generalize (field_ind f) as R.
+    clearbody P Q. intros R X HX HPQ. revert P Q X HX HPQ.
+    induction R as [|i R IHR]; intros P Q [|a X] HX HPQ; try discriminate; [reflexivity|].
+    cbn in HX. inversion HX as [[Hi Hr]].
+    destruct P as [|t P], Q as [|q Q]; try discriminate; [reflexivity|].
+    cbn in HPQ. inversion HPQ as [[Ht HPQ']].
+    cbn [combine map fst snd]. rewrite (IHR P Q X Hr HPQ'). f_equal.
+    now rewrite get_tuple_cons, Hi, Ht.
+Qed.
+
+Lemma chain_eq_all s ss : chain_eq s ss = true -> Forall (eq s) ss.
+Proof.
+  revert s. induction ss as [|s' ss IH]; intros s H; [constructor|].
+  cbn in H. apply andb_true_iff in H. destruct H as [E H]. apply nat_list_eqb_eq in E. subst s'.
+  constructor; [reflexivity| apply IH, H].
+Qed.
+
+Lemma chain_eq_intro s ss : Forall (eq s) ss -> chain_eq s ss = true.
+Proof.
+  induction 1 as [|s' ss <- _ IH]; [reflexivity|].
+  cbn. now rewrite (proj2 (nat_list_eqb_eq s s) eq_refl), IH.
+Qed.
+
+Lemma op_elements_length f : field_ok f -> List.length (op_elements (op_of f)) = prod (field_shape f).
+Proof.
+  intros H. unfold op_elements, op_of, field_shape. cbn [fst snd].
+  rewrite (prod_input_shape _ _ H). now rewrite flatten_spec.
+Qed.
+
+Lemma splitN_inner f0 fs :
+  Forall field_ok (f0 :: fs) ->
+  inner_n_ok (map op_of (f0 :: fs)) (splitN Inner f0 fs).
+Proof.
+  intros H. unfold splitN, nary_ind.
+  destruct (chain_eq (field_shape f0) (map field_shape fs)) eqn:E.
+  - rewrite inner_ind_zip.
+    change (field_ind f0 :: map field_ind fs) with (map field_ind (f0 :: fs)).
+    rewrite (get_tuple_zip (f0 :: fs) H), sequence_map_Some. cbn [inner_n_ok]. rewrite map_map.
+    split; [|reflexivity].
+    apply chain_eq_all in E.
+    assert (L : forall e, In e (map (fun f => op_elements (op_of f)) (f0 :: fs)) ->
+                          List.length e = prod (field_shape f0)).
+    { intros e He. apply in_map_iff in He. destruct He as [f [<- Hf]].
+      rewrite Forall_forall in H. rewrite (op_elements_length f (H f Hf)).
+      destruct Hf as [<-|Hf]; [reflexivity|].
+      rewrite Forall_forall in E. rewrite (E (field_shape f)); [reflexivity|]. now apply in_map. }
+    intros e e' He He'. now rewrite (L e He), (L e' He').
+  - cbn [inner_n_ok]. intros [R D].
+    assert (S : forall f, In f (f0 :: fs) -> field_shape f = dims (fst (op_of f)) (snd (op_of f))).
+    { intros f Hf. unfold field_shape. rewrite Forall_forall in H, R.
+      apply (input_shape_rect _ _ (H f Hf)). apply (R (op_of f)). now apply in_map. }
+    rewrite chain_eq_intro in E; [discriminate|].
+    apply Forall_forall. intros s Hs. apply in_map_iff in Hs. destruct Hs as [f [<- Hf]].
+    rewrite (S f0 (or_introl eq_refl)), (S f (or_intror Hf)).
+    apply D; apply in_map; [left; reflexivity| right; exact Hf].
+Qed.
+
+(* non-vacuity: three fields, the middle one nested and ragged, in both kinds of splitter *)
+Definition ex_fields : field * list field :=
+  ((None, [Leaf 10; Leaf 11; Leaf 12]%Z), [(Some 2, witness); (None, [Leaf 20; Leaf 21; Leaf 22]%Z)]).
+Example ex_fields_ok : Forall field_ok (fst ex_fields :: snd ex_fields).
+Proof. repeat constructor. Qed.
+Example ex_inner_n :
+  splitN Inner (fst ex_fields) (snd ex_fields) =
+  Jobs [[Leaf 10; Leaf 1; Leaf 20]; [Leaf 11; Leaf 2; Leaf 21]; [Leaf 12; Leaf 3; Leaf 22]]%Z.
+Proof. vm_compute. reflexivity. Qed.
+Example ex_outer_n :
+  exists l, splitN Outer (fst ex_fields) (snd ex_fields) = Jobs l /\ List.length l = 27 /\
+            nth_error l 4 = Some [Leaf 10; Leaf 2; Leaf 21]%Z.
+Proof. eexists. split; [vm_compute; reflexivity|]. split; reflexivity. Qed.
+Example ex_inner_n_rejected :
+  splitN Inner (None, [Leaf 10; Leaf 11; Leaf 12; Leaf 13]%Z) [(Some 2, square); (None, [Leaf 1; Leaf 2; Leaf 3; Leaf 4]%Z)]
+  = ShapeError.
+Proof. vm_compute. reflexivity. Qed.
